@@ -250,6 +250,9 @@ class PBES2HSAlgModel(JWEKeyEncryption):
         self.hash_alg = getattr(hashes, f"SHA{hash_size}")()
 
     def compute_derived_key(self, key: bytes, p2s: bytes, p2c: int) -> bytes:
+        # the iteration count is a positive 32-bit signed integer for the backend
+        if p2c < 1 or p2c >= 2 ** 31:
+            raise ValueError('Invalid "p2c" value')
         # The salt value used is (UTF8(Alg) || 0x00 || Salt Input)
         salt = to_bytes(self.name) + b"\x00" + p2s
         kdf = PBKDF2HMAC(
